@@ -267,7 +267,7 @@ package anchoring
 //@ spec shiftOf(w real) real = w < 0.01 ? 0.01 - w : 0.0
 
 //@ func normalizeCriteriaByTotalValue
-//@   property C19
+//@   property C19 C07
 //@   panics_iff [no_criteria] len(criteria) == 0
 //@   assigns criteria
 //@   ensures [shifted_and_normalised] forall k int :: 0 <= k && k < len(criteria) ==> criteria[k].Criterion == old(criteria[k].Criterion)
@@ -314,3 +314,17 @@ package anchoring
 // statically): assumed to write only that object, which no caller state refers to.
 //@ func parseFuncParams
 //@   trusted
+
+// ---- no state shared between requests (C09): every request decodes its function parameters into a new object
+//@ func (*InlineAnchoringApplier).BlankParams
+//@   property C09 C19
+//@   nopanic
+//@   ensures [new_object_each_time] typeis(result, *InlineAnchoringApplierParams) && fresh(result.(*InlineAnchoringApplierParams))
+//@ func (*LinearAnchoringEvaluator).BlankParams
+//@   property C09 C19
+//@   nopanic
+//@   ensures [new_object_each_time] typeis(result, *utils.LinearFunctionParameters) && fresh(result.(*utils.LinearFunctionParameters))
+//@ func (*ExpFromZeroAnchoringEvaluator).BlankParams
+//@   property C09 C19
+//@   nopanic
+//@   ensures [new_object_each_time] typeis(result, *utils.ExpFromZeroFunction) && fresh(result.(*utils.ExpFromZeroFunction))
